@@ -705,7 +705,9 @@ def _walk_chart(gf, p, out):
                 out.append(("AxisTitle", cp + "." + nm + ".axis_title"))
     if len(ch.plots):
         pl = ch.plots[0]
-        pk = type(pl).__name__
+        # (the catalogued class a proxy IS: a subclass the library gains for a further plot / series type is an object of its base's kind)
+        isa = lambda o, names: next((n for n in names if any(c.__name__ == n for c in type(o).__mro__)), type(o).__name__)  # noqa: E731
+        pk = isa(pl, ("BarPlot", "BubblePlot", "XyPlot", "LinePlot", "PiePlot"))
         if pk in ("BarPlot", "BubblePlot", "XyPlot"):
             out.append((pk, cp + ".plots[0]"))
         try:
@@ -714,7 +716,7 @@ def _walk_chart(gf, p, out):
         except Exception:       # noqa: BLE001
             pass
         if len(pl.series):
-            sk = type(pl.series[0]).__name__
+            sk = isa(pl.series[0], ("BarSeries", "LineSeries"))
             if sk in ("BarSeries", "LineSeries"):
                 out.append((sk, cp + ".plots[0].series[0]"))
             if sk == "LineSeries":
